@@ -11,6 +11,7 @@ T_dx == <<"$", "x">>
 F_ab == <<"a", "/", "b">>
 F_ap == <<"a", "/", "+">>
 F_h  == <<"#">>
+F_ac == <<"a", "/", "c">>
 
 MCTopics == {T_ab, T_ac}
 MCFilters == {F_ab, F_ap}
@@ -25,6 +26,22 @@ MCFilters1 == {F_ab}
 MCTopics3 == {T_ab, T_ac, T_dx}
 MCFilters3 == {F_ab, F_ap, F_h}
 MCMatch3 == {<<t, f>> \in MCTopics3 \X MCFilters3 : MT!Matches(t, f)}
+
+\* shared subscriptions: one group on a/b; two groups; one group name on two filters
+F_sab == <<"$share/", "g", "/", "a", "/", "b">>
+F_hab == <<"$share/", "h", "/", "a", "/", "b">>
+F_sac == <<"$share/", "g", "/", "a", "/", "c">>
+MCFiltersS1 == {F_ab, F_sab}
+MCSubS1 == {F_sab}
+MCMatchS1 == {<<t, f>> \in MCTopics1 \X MCFiltersS1 : MT!Matches(t, f)}
+MCFiltersS2 == {F_ab, F_ac, F_sab, F_sac}
+MCSubS2 == {F_sab, F_sac}
+MCMatchS2 == {<<t, f>> \in MCTopics \X MCFiltersS2 : MT!Matches(t, f)}
+MCSubS1p == {F_sab, F_ab}
+MCNet3Cid == [n \in Nets |-> CASE n = "n1" -> "c1" [] n = "n2" -> "c2" [] n = "n3" -> "c3" [] OTHER -> "c1"]
+MCPersistent12 == [n \in Nets |-> ~(n \in {"n1", "n2"})]
+MCPersistent124 == [n \in Nets |-> ~(n \in {"n1", "n2", "n4"})]
+MCPersistent14 == [n \in Nets |-> ~(n \in {"n1", "n4"})]
 
 MCNoWill == [n \in Nets |-> NOMSG]
 \* n1 registers a will on a/b (QoS as published, not retained); n3 a retained will
